@@ -167,6 +167,58 @@ def check_title(title):
     return out
 
 
+def all_placeholders(mr):
+    out = list(mr.scaled_value_strings) + list(mr.recipe_placeholders)
+    return out + [p for p in (mr.pre_title_placeholder, mr.post_title_placeholder) if p]
+
+
+def extrapolate(a, b):
+    """if two successive placeholders differ only in digit runs, continue the progression (predictable generators)"""
+    pa, pb = re.split(r"(\d+)", a), re.split(r"(\d+)", b)
+    if len(pa) != len(pb) or pa[0::2] != pb[0::2]:
+        return None
+    out = []
+    for i, (x, y) in enumerate(zip(pa, pb)):
+        if i % 2 and x != y:
+            out.append(str(int(y) + (int(y) - int(x))).zfill(len(y)))
+        else:
+            out.append(y)
+    return "".join(out)
+
+
+def check_placeholder_replay():
+    """user text that spells out placeholders the tool used (or, for a predictable generator, is about to use) stays text"""
+    out = []
+    body = "# T for 2\n\nMix {2} eggs %s.\n\n    1 kg 'flour %s'\n    bake('flour %s', 'x %s')\n"
+    plain = body % ("p", "q", "q", "r")
+    m1 = M.compile_markdown(plain)
+    m2 = M.compile_markdown(plain)
+    guesses = all_placeholders(m1) + all_placeholders(m2)
+    for a, b_ in zip(all_placeholders(m1), all_placeholders(m2)):
+        for step in range(1, 4):
+            g = extrapolate(a, b_)
+            if g:
+                guesses.append(g)
+                a, b_ = b_, g
+    # a generous window for counters: every placeholder-shaped string near the observed ones
+    guesses = list(dict.fromkeys(guesses))[:40]
+    text = " ".join(guesses)
+    doc = body % (text.replace("%", "\\%") if False else text, text, text, text)
+    try:
+        mr = M.compile_markdown(doc)
+        html = mr.render(2)
+    except Exception as e:  # noqa
+        return [("C10:placeholder-text-breaks-compilation", repr(e)[:200])]
+    ref = M.compile_markdown(body % ("w", "w", "w", "w")).render(2)
+    if skeleton(html) != skeleton(ref):
+        out.append(("C10:user-text-equal-to-a-placeholder-is-substituted", "document structure changes when user text spells out placeholder strings"))
+    root, problems = htmltok.tree(html)
+    cells = [n.text() for n in root.iter() if n.tag == "td"]
+    if not any(guesses[0] in c for c in cells):
+        out.append(("C10:user-text-equal-to-a-placeholder-is-substituted", "placeholder-shaped user text is not shown verbatim"))
+    return out
+
+
 def correspondence(run):
     cases = gen_cases(run, run.budget(1200, 20000))
     rep = run.ask([sexp.tag("html", sexp.s(pre), rsexp.tree(t)) for t, pre in cases])
@@ -183,6 +235,9 @@ def oracle(run):
         run.case(("oracle", rsexp.tree(t), pre), True)
         for sig, detail in check_tree(t, pre):
             run.violate(sig, detail, {"tree": rsexp.tree(t), "prefix": pre})
+    run.case(("placeholder-replay",), True, kind="placeholder-replay")
+    for sig, detail in check_placeholder_replay():
+        run.violate(sig, detail, {"placeholder_replay": True})
     for title in ["Tom's \"best\" pie", "Fish & chips", "a > b", "x &amp; y", "50% rye #1", "back\\\\slash", "naïve café"]:
         run.case(("title", title), True, kind="title")
         for sig, detail in check_title(title):
@@ -196,7 +251,9 @@ def oracle(run):
 
 def replay(run, obj):
     r = obj["replay"]
-    if "title" in r:
+    if "placeholder_replay" in r:
+        res = check_placeholder_replay()
+    elif "title" in r:
         res = check_title(r["title"])
     elif "site" in r:
         from . import c14
